@@ -146,9 +146,26 @@ impl Prop for C01 {
     let mut s = Sess::new();
     s.bind("a", &lhs, false);
     if let Some(r) = &rhs { s.bind("b", r, false); }
-    let res = s.eval(&op_text(&op));
+    // operand forms: kernels are selected differently for variables and for inline literals, so each operand is written as
+    // a literal in half of the cases (chosen by a hash of the case id) - provided the literal alone evaluates to exactly
+    // the operand (how literals are read is C13's business)
+    let h = case.id.bytes().fold(0xcbf29ce484222325u64, |h, b| (h ^ b as u64).wrapping_mul(0x100000001b3));
+    let mut text = op_text(&op);
+    let mut form = String::new();
+    for (bit, name, v) in [(0u32, "a", Some(&lhs)), (1, "b", rhs.as_ref())] {
+      let Some(v) = v else { continue };
+      let mut used = false;
+      if (h >> (7 + bit)) & 1 == 1 {
+        if let Some(l) = lit(v) {
+          let l = if l.starts_with('-') { format!("({})", l) } else { l };
+          if let Ev::Ok(pv) = s.eval(&l) { if &pv == v { text = text.replacen(name, &l, 1); used = true; } }
+        }
+      }
+      form.push(if used { 'l' } else { 'v' });
+    }
+    let res = s.eval(&text);
     let arm = s.last_arm();
-    let mut tags = vec![];
+    let mut tags = vec![format!("form:{}", form)];
     if res.is_ok() && !arm.is_empty() { tags.push(format!("arm:{}", arm.split_whitespace().next().unwrap_or(""))); }
     if let Ev::ParseErr(m) = &res { return Outcome::inconclusive("harness-parse", m.clone()); }
     if let Ev::Panic(m) = &res { return Outcome::violated("panic-escaped", m.clone()); }
